@@ -4,6 +4,7 @@ import (
 	"bytes"
 	"context"
 	"encoding/json"
+	"math"
 	"sort"
 	"strings"
 
@@ -135,6 +136,12 @@ func (s *Set) SortedItems() []Object {
 			return h1.StrValue < h2.StrValue
 		}
 		if h1.FltValue != h2.FltValue {
+			// NaN compares false with everything: give it a fixed place
+			// (first), or the order depends on the map iteration order
+			n1, n2 := math.IsNaN(h1.FltValue), math.IsNaN(h2.FltValue)
+			if n1 || n2 {
+				return n1 && !n2
+			}
 			return h1.FltValue < h2.FltValue
 		}
 		return false
